@@ -123,6 +123,28 @@ CHECKS = {
         'note': _COMMON_NOTE,
         'technique': 'Coq proof (induction over fragments and rows) + model/impl correspondence + fragment-export monitor',
     },
+    'C12': {
+        'text': 'Theorems in coq/props/C12.v for ANY recogniser: the kern importer modelled as a state machine over its error '
+                'listener is history independent when the listener is replaced per call - every history, every start state, '
+                'every order - and the flag "replaced per call" is regenerated from kern_spine_importer.py; a sticky listener is '
+                'refuted with a witness; well-formed cells are returned, malformed ones raise; the grid of the imported tree '
+                'does not depend on which cells are malformed. Correspondence: histories on one importer instance vs the state '
+                'machine; damaged documents (tree + error list) vs the importer model. Monitors: one error per malformed kern '
+                'cell with its line number, other tokens untouched, verbatim re-export. Known finding K7 (valid prefix + garbage '
+                'accepted and shortened).',
+        'note': _COMMON_NOTE + 'The recogniser is universally quantified in the theorems; cells outside CKL are outside the document-level model (their share is printed in the evidence).',
+        'technique': 'Coq proof (state machine, parametric recogniser, regenerated listener flag) + history and damaged-document correspondence + monitors',
+    },
+    'C20': {
+        'text': 'PARTIAL. Theorems in coq/props/C20.v (pure part): the file reader and the text reader of the importer model split '
+                'EVERY byte string free of the extra str.splitlines separators into the same rows, hence load = loads on the '
+                'model (induction over the bytes). open(), encodings, makedirs, argparse, Path.glob and process exit codes cannot '
+                'be expressed in an executable Gallina model: they are decided by real temporary files and python -m kernpy '
+                'subprocesses (load vs loads on LF/CRLF/CR files, dump vs dumps into missing directories, kern2ekern / '
+                'ekern2kern single file and directory mode with and without -r, ekern-kern-ekern round trip). Known finding K9.',
+        'note': _COMMON_NOTE + 'Partial: runtime / OS behaviour is tested, not proved.',
+        'technique': 'Coq proof (line-reader equivalence) + file-mode model/impl correspondence + file and subprocess monitors',
+    },
     'C09': {
         'text': 'Theorems in coq/props/C09.v hold for every octave in Z (finite residue sweep by vm_compute lifted with '
                 'Z.div/mod lemmas; inverse, unison, octave, P4+P5 and failure-only-on-residue-22 proved algebraically for '
